@@ -361,7 +361,10 @@ theorem matchOne_rel {j : Nat} {w w' : World} (hr : Rel j w w') (a : Bool) (o : 
   by_cases hfin : o.isFinal = true
   · simp only [hfin, if_true]; exact ⟨hr, trivial, trivial⟩
   · simp only [hfin, Bool.false_eq_true, if_false]
-    rw [hr.same.cfg, hr.same.dayOf ho]
+    rw [hr.same.cfg, hr.same.dayOf ho, hr.same.phase]
+    by_cases hdl : (w.cfg.daily && !a && (w.phase == .before || w.phase == .auction)) = true
+    · simp only [hdl, if_true]; exact ⟨hr, trivial, trivial⟩
+    simp only [hdl, Bool.false_eq_true, if_false]
     cases hc : w.cfg.find o.ins with
     | none => exact ⟨hr, rfl, rfl⟩
     | some wi =>
